@@ -195,6 +195,24 @@ fn main() {
             fs::write(format!("{}/stats_bfs.json", out), format!("{{\"bfs\":[{}],\"stats\":{}}}", summary.join(","), sj)).unwrap();
             println!("[{}]", summary.join(","));
         }
+        "miggrid" => {
+            // miggrid --out DIR : the deterministic migration grid (trace_mig.txt + hist_mig.jsonl)
+            let out = arg(&args, "--out").unwrap_or_else(|| ".".into());
+            fs::create_dir_all(&out).unwrap();
+            let mut tf = std::io::BufWriter::new(fs::File::create(format!("{}/trace_mig.txt", out)).unwrap());
+            let mut hf = std::io::BufWriter::new(fs::File::create(format!("{}/hist_mig.jsonl", out)).unwrap());
+            let mut total = Stats::default();
+            let hs = bfs::mig_grid();
+            for h in &hs {
+                let w = replay(h);
+                tf.write_all(w.trace.as_bytes()).unwrap();
+                hf.write_all(serde_json::to_string(h).unwrap().as_bytes()).unwrap();
+                hf.write_all(b"\n").unwrap();
+                total.merge(&w.stats);
+            }
+            fs::write(format!("{}/stats_mig.json", out), stats_json(&total, hs.len() as u64)).unwrap();
+            println!("{} migration histories", hs.len());
+        }
         "mkcorpus" => {
             let out = arg(&args, "--out").unwrap_or_else(|| "corpus".into());
             fs::create_dir_all(&out).unwrap();
